@@ -162,7 +162,23 @@ func (ex *Exec) verifyFunc(key string) error {
 		ob.Pos = ex.posOf(fr.retInstr)
 	})
 	ex.retCount[key] = nRet
+	// every at-call clause of a verified function must have met at least one call site
+	ex.checkAtCallCoverage(key, sp)
 	return nil
+}
+
+func (ex *Exec) checkAtCallCoverage(key string, sp *FuncSpec) {
+	if sp == nil {
+		return
+	}
+	for _, c := range sp.AtCall {
+		if ex.propFilter != nil && !ex.propFilter(c.Labels) {
+			continue
+		}
+		if !ex.covers[key+"/atcall/"+c.name()+"/"+c.Callee] {
+			ex.specError("%s:%d: atcall clause %s never matched a call to %q in %s (contract drift)", c.File, c.Line, c.name(), c.Callee, key)
+		}
+	}
 }
 
 func (ex *Exec) lockLeak(st *State, fr *Frame) {
@@ -296,9 +312,14 @@ func cmdCheck(args []string) int {
 		}
 	}
 	for _, k := range keys {
+		tf := time.Now()
+		defer func(k string) {}(k)
 		if err := ex.verifyFunc(k); err != nil {
 			fmt.Println("ERROR", err)
 			drift = true
+		}
+		if d := time.Since(tf); d > 3*time.Second && *verbose {
+			fmt.Printf("  slow symbolic execution: %s %.1fs (%d paths)\n", k, d.Seconds(), ex.paths)
 		}
 	}
 	// lemmas
@@ -337,33 +358,49 @@ func cmdCheck(args []string) int {
 	ex.decideAll(real, cfg)
 	// canaries: at least one return of each function must be reachable (not unsat)
 	ccfg := cfg
-	ccfg.T1, ccfg.T2 = 3*time.Second, 3*time.Second
+	ccfg.T1, ccfg.T2 = 2*time.Second, 2*time.Second
 	vacuous := []string{}
 	byFunc := map[string][]*Obligation{}
 	for _, c := range canaries {
 		byFunc[c.Func] = append(byFunc[c.Func], c)
 	}
+	type vres struct {
+		k   string
+		vac bool
+	}
+	vch := make(chan vres, len(keys))
+	sem := make(chan struct{}, 8)
+	nv := 0
 	for _, k := range keys {
 		cs := byFunc[k]
 		if len(cs) == 0 {
 			continue
 		}
-		reach := false
-		// check up to a handful of returns; stop at the first reachable one
-		for i, c := range cs {
-			if i >= 6 {
-				break
+		nv++
+		go func(k string, cs []*Obligation) {
+			sem <- struct{}{}
+			defer func() { <-sem }()
+			reach := false
+			// check up to a handful of returns; stop at the first reachable one
+			for i, c := range cs {
+				if i >= 6 {
+					break
+				}
+				c.Goal = "true"
+				if ex.coverSat(c, ccfg) != "unsat" {
+					reach = true
+					break
+				}
 			}
-			c.Goal = "true"
-			if ex.coverSat(c, ccfg) != "unsat" {
-				reach = true
-				break
-			}
-		}
-		if !reach && len(cs) <= 6 {
-			vacuous = append(vacuous, k)
+			vch <- vres{k, !reach && len(cs) <= 6}
+		}(k, cs)
+	}
+	for i := 0; i < nv; i++ {
+		if r := <-vch; r.vac {
+			vacuous = append(vacuous, r.k)
 		}
 	}
+	sort.Strings(vacuous)
 
 	// aggregate
 	aggs := map[string]*obAgg{}
@@ -460,6 +497,14 @@ func cmdCheck(args []string) int {
 	}
 	for _, l := range violLines {
 		fmt.Println(l)
+	}
+	if P == "C15" && len(ex.uncovered) > 0 {
+		var u []string
+		for k := range ex.uncovered {
+			u = append(u, k)
+		}
+		sort.Strings(u)
+		fmt.Println("UNCOVERED fields (no discipline declared; reported, not a violation):", strings.Join(u, " "))
 	}
 	var noteList []string
 	abstracted := false
